@@ -148,7 +148,12 @@ func (s *lcServer) probeBindable() string {
 		}
 		l, err := net.Listen("tcp", fmt.Sprintf("127.0.0.1:%d", p))
 		if err != nil {
-			return fmt.Sprintf("port %d cannot be bound after Stop returned: %v", p, err)
+			// The loopback port space is shared with every other process (and with the ephemeral source ports
+			// of outgoing connections): the failure only counts if the listening socket is OURS.
+			if !listeningSocketIsOurs(p) {
+				continue
+			}
+			return fmt.Sprintf("port %d cannot be bound after Stop returned: %v (a listening socket on it is still open in the server process)", p, err)
 		}
 		l.Close()
 	}
@@ -731,4 +736,33 @@ func init() {
 		MinConclusive: 50,
 		Race:          true,
 	})
+}
+
+// listeningSocketIsOurs reports whether this process holds a LISTEN socket on the TCP port.
+func listeningSocketIsOurs(port int) bool {
+	mine := map[string]bool{}
+	if es, err := os.ReadDir("/proc/self/fd"); err == nil {
+		for _, e := range es {
+			if t, err := os.Readlink("/proc/self/fd/" + e.Name()); err == nil && strings.HasPrefix(t, "socket:[") {
+				mine[strings.TrimSuffix(strings.TrimPrefix(t, "socket:["), "]")] = true
+			}
+		}
+	}
+	want := fmt.Sprintf(":%04X", port)
+	for _, f := range []string{"/proc/net/tcp", "/proc/net/tcp6"} {
+		b, err := os.ReadFile(f)
+		if err != nil {
+			continue
+		}
+		for _, l := range strings.Split(string(b), "\n")[1:] {
+			fs := strings.Fields(l)
+			if len(fs) < 10 || !strings.HasSuffix(fs[1], want) || fs[3] != "0A" {
+				continue
+			}
+			if mine[fs[9]] {
+				return true
+			}
+		}
+	}
+	return false
 }
